@@ -421,6 +421,12 @@ def gen_sig_scenario(rng, params, sid, quick=True, collide=None):
     if not sc["callback"] and not sc["picklable"] and rng.random() < 0.5:
         # the validation callback is expires_after(...) with an expiry of a day or more: fresh entries stay valid
         sc["expires"] = rng.choice([{"days": 1}, {"weeks": 2}, {"hours": 36}, {"days": 7, "seconds": 1}, {"hours": 24}])
+        if not collide and rng.random() < 0.5:
+            # executions that last about / longer than the expiry (fake clock of the driver: seconds per described
+            # parameter); validity counts from the COMPLETION of the call.  (A re-decoration drops the callback.)
+            import datetime
+            sc["slow"] = rng.choice([0.45, 0.6, 1.5, 3]) * datetime.timedelta(**sc["expires"]).total_seconds()
+            sc["events"] = events = [e for e in sc["events"] if e[0] != "recache"]
     if rng.random() < 0.3 and not sc.get("backend"):
         sc["loc_form"] = rng.choice(["path", "tilde"])     # Memory(pathlib.Path(...)) / Memory("~/...") (HOME in the sandbox)
     if multi:
@@ -688,6 +694,26 @@ def fixed_scenarios(prop):
             out.append({"id": "fixed-expires-after-%d" % n_, "type": "sig", "callback": False, "expires": spec,
                         "params": [["a", "pk", None], ["b", "pk", I(0)]], "ignore": [], "compress": False,
                         "versions": {"0": {"tag": "v0", "path": "verifmod.py", "pad": 0, "kind": "def"}}, "events": ev})
+        # C06-17: executions that take about / longer than the expiry: validity counts from the completion of the call
+        for n_, (spec, factor) in enumerate((({"days": 1}, 1.5), ({"hours": 36}, 0.6), ({"weeks": 2}, 3), ({"hours": 24}, 0.45))):
+            import datetime
+            ev = [["define", 0], ["wrap", 0], _call(0, [1]), _call(0, [1], kind="check"), _call(0, [1]),
+                  _call(0, [], [("a", 1)]), _call(0, [1, 0]), _call(0, [2], kind="shelve"), ["get", 0],
+                  _call(0, [2], kind="check"), _call(0, [2]), _call(0, [1], kind="check"), _call(0, [1]),
+                  _call(0, [1]), _call(0, [3]), _call(0, [3]), _call(0, [2], kind="check"), _call(0, [2])]
+            out.append({"id": "fixed-expires-after-slow-%d" % n_, "type": "sig", "callback": False, "expires": spec,
+                        "slow": factor * datetime.timedelta(**spec).total_seconds(),
+                        "params": [["a", "pk", None], ["b", "pk", I(0)]], "ignore": [], "compress": False,
+                        "versions": {"0": {"tag": "v0", "path": "verifmod.py", "pad": 0, "kind": "def"}}, "events": ev})
+        # C12-18 under the C06 oracle: an unchanged __main__ script run with a relative path from other working directories
+        ev = []
+        for n in range(5):
+            ev += [["define", 0], ["wrap", 0], _call(0, [1], kind="check"), _call(0, [1]), _call(0, [], [("a", 1)]),
+                   _call(0, [2])] + ([["newprocess"]] if n < 4 else [])
+        out.append({"id": "fixed-main-script-relative-paths-sig", "type": "sig", "callback": False,
+                    "cwds": ["here", "parent", "dot", "updown", "abs"],
+                    "params": [["a", "pk", None], ["b", "pk", I(0)]], "ignore": [], "compress": False,
+                    "versions": {"0": {"tag": "v0", "path": "verifmod.py", "pad": 0, "kind": "main"}}, "events": ev})
         # C06-13: the function MOVES in its file between two sessions (lines added above it), text unchanged
         ev = []
         for n in range(3):
@@ -919,6 +945,18 @@ def fixed_scenarios(prop):
                     "events": [["define", 1], ["wrap", 1], _c(1, 0), _c(1, 1), ["hotreload", 1, 3], cf(3, 0),
                                ["newprocess"], ["define", 1], ["wrap", 1],
                                ["check", 1, {"pos": [I(0)], "kw": []}, True], _c(1, 0), _c(1, 1)]})
+        # C12-18: one unchanged __main__ script, every session started from another working directory / with another
+        # relative spelling of its path; the last session has an edited script
+        Vm = {"1": {"tag": "v1", "path": "verifmod.py", "pad": 0, "kind": "main", "text": 1},
+              "2": {"tag": "v2", "path": "verifmod.py", "pad": 0, "kind": "main", "text": 2}}
+        ev = []
+        for n_ in range(5):
+            ev += [["define", 1], ["wrap", 1], ["check", 1, {"pos": [I(0)], "kw": []}, True], _c(1, 0), _c(1, 1),
+                   ["newprocess"]]
+        ev += [["define", 2], ["wrap", 2], _c(2, 0), _c(2, 1), _c(2, 0)]
+        out.append({"id": "fixed-main-script-relative-paths", "type": "c12", "params": [["x", "pk", None]],
+                    "ignore": [], "compress": False, "versions": Vm, "mode": "same",
+                    "cwds": ["here", "parent", "dot", "updown", "abs", "parent"], "events": ev})
         # C02-16: two SCRIPTS without a .py suffix in a dotted directory, each with its own __main__ function g, alive
         # at the same time on one cache directory (two function identifiers: model run with one text and disjoint keys)
         Vs = {"1": {"tag": "train", "path": ".local/bin/train", "pad": 0, "kind": "main", "text": 1},
@@ -1213,6 +1251,9 @@ def gen_loc_scenario(rng, sid):
     return sc
 
 
+MAIN_SPELLINGS = ["here", "dot", "parent", "updown", "abs"]
+
+
 def gen_c12_scenario(rng, sid):
     nver = rng.choice([2, 2, 3])
     mode = rng.choice(["own", "own", "same", "same", "mixed"])
@@ -1237,6 +1278,10 @@ def gen_c12_scenario(rng, sid):
         v["pad"] = pads.setdefault(v["path"], v["pad"])
     sc = {"id": sid, "type": "c12", "params": [["x", "pk", None]], "ignore": [], "compress": False,
           "versions": versions, "mode": mode, "keep_mtime": rng.random() < 0.3}
+    if kind == "main" and rng.random() < 0.6:
+        # the script is run with a RELATIVE path, each session from another working directory / through another
+        # spelling of the path (python script.py, runpy.run_path): one function identifier all the same
+        sc["cwds"] = [rng.choice(MAIN_SPELLINGS) for _ in range(6)]
     events = []
     live, wrapped, lineage = set(), set(), {}
     careful = rng.random() < 0.5     # careful scenarios never use an object the monitor would refuse
@@ -1456,7 +1501,7 @@ def run_scenario(sc, timeout=300):
             job = {"cache": cache, "moddir": moddir, "refs": os.path.join(tmp, "refs.pkl"),
                    "scenario": {k: sc[k] for k in ("versions", "params", "ignore", "compress", "verbose", "mmap_mode",
                                                    "picklable", "callback", "pids", "backend", "body_ignore", "loc_alias",
-                                                   "keep_mtime", "pads", "loc_form", "eval_wrapper", "expires")
+                                                   "keep_mtime", "pads", "loc_form", "eval_wrapper", "expires", "slow", "cwds")
                                 if k in sc}, "events": seg,
                    "segment": nseg}
             p = subprocess.run([common.PYNP if sc.get("py") == "np" else common.PY,
@@ -1599,6 +1644,7 @@ def judge(sc, res):
         shapes |= shape_keys(ps)
     V = sc["versions"]
     sc["_raises"] = {i: True for i, r in enumerate(evs) if r.get("args_id", 1) is None}
+    expired = expired_events(sc, res)
     adm, adm_at, adm_clause = monitor(sc, classify=True)
     multi = sc["type"] in ("c12", "partial")
 
@@ -1632,7 +1678,7 @@ def judge(sc, res):
             # a definition of different text than what is cached invalidates expectations of the OTHER text only
             pass
         if t in ("call", "shelve", "check"):
-            k, vld = ev[1], ev[3]
+            k, vld = ev[1], ev[3] and i not in expired
             text = V[str(k)].get("text", 0)
             if r.get("bind") is None:
                 continue  # Python rejects the call: outside the properties
@@ -1849,6 +1895,27 @@ def model_terms_loc(sc, res):
         {"rbindc": rbindc, "locs": nslots, "sibs": sibs, "expand": expand}
 
 
+def expired_events(sc, res):
+    """scenario flag "slow" (fake clock: the cached function's executions take about / more than the expiry given to
+    expires_after): the events at which the stored entry is LEGITIMATELY expired -- its age, counted from the
+    COMPLETION of the call that stored it, exceeds the expiry.  Built from the fake clock the driver reports."""
+    if not sc.get("slow") or not sc.get("expires"):
+        return set()
+    import datetime
+    E = datetime.timedelta(**sc["expires"]).total_seconds()
+    stored, out = {}, set()
+    for i, (ev, r) in enumerate(zip(sc["events"], res["events"])):
+        if ev[0] not in ("call", "shelve", "check") or r.get("bind") is None or "clock0" not in r:
+            continue
+        key = r["bind_r"]
+        if key in stored and r["clock0"] - stored[key] > E:
+            out.add(i)
+            stored.pop(key)      # the rejected entry is deleted (check) or replaced (call)
+        if ev[0] != "check" and r.get("n", 0) > 0:
+            stored[key] = r["clock1"]
+    return out
+
+
 def is_forced(ev):
     """MemorizedFunc.call: the model event is the call whose stored entry is rejected (check the code, execute, store)"""
     return ev[0] == "call" and ev[2].get("via") == "call"
@@ -1875,7 +1942,8 @@ def model_terms(sc, res):
     keyc, bindc, rbindc = {}, {}, {}
     hist = []
     ref_digest = []
-    for ev, r in zip(sc["events"], evs):
+    expired = expired_events(sc, res)
+    for nev_, (ev, r) in enumerate(zip(sc["events"], evs)):
         t = ev[0]
         if "harness_error" in r:
             return None
@@ -1902,7 +1970,8 @@ def model_terms(sc, res):
                 b = "(Some (%d, %d))" % (bindc.setdefault(r["bind"], len(bindc)),
                                          rbindc.setdefault(r["expect"], len(rbindc)))
             hist.append("%s %d (%s, %s) %s" % ({"call": "Call", "shelve": "Shelve", "check": "Check"}[t], ev[1],
-                                               key, b, "true" if ev[3] and not is_forced(ev) else "false"))
+                                               key, b, "true" if ev[3] and not is_forced(ev)
+                                               and nev_ not in expired else "false"))
         elif t == "get":
             hist.append("Get %d" % ev[1])
         elif t == "clearref":
